@@ -39,11 +39,18 @@ MCApply == ApplyNext /\ hist' = Append(hist, [k |-> "Apply"]) /\ UNCHANGED <<nad
 MCFinalize == Finalize /\ hist' = Append(hist, [k |-> "Finalize"]) /\ UNCHANGED <<nadd, nbad, ndup>>
 MCReset == Reset /\ Len(hist) < MaxLen /\ hist' = Append(hist, [k |-> "Restart"]) /\ UNCHANGED <<nadd, nbad, ndup>>
 
-MCNext == \/ \E t \in Trees : \E idx \in 0..NSeg(t), k \in Kinds : MCAdd(t, idx, k)
+\* the archive path: only on a node without state, result visible in `finalised`
+MCArchive(k) == nadd = 0 /\ ArchiveWrite(k) /\ hist' = Append(hist, [k |-> "ArchiveWrite", kind |-> k]) /\ UNCHANGED <<nadd, nbad, ndup>>
+
+MCSegNext ==
+          \/ \E t \in Trees : \E idx \in 0..NSeg(t), k \in Kinds : MCAdd(t, idx, k)
           \/ (Len(hist) < MaxLen /\ MCApply)
           \/ MCFinalize
           \/ MCReset
+MCNext == MCSegNext \/ \E k \in ArchiveKinds : (Len(hist) < 2 /\ MCArchive(k))
 MCSpec == MCInit /\ [][MCNext]_mcvars
+\* arrival orders for the PIBD scenarios (the archive scenarios are fixed ones)
+MCSpecSim == MCInit /\ [][MCSegNext]_mcvars
 
 View == vars
 
